@@ -326,6 +326,34 @@ impl FreeSpaceManager {
     }
 }
 
+#[cfg(feature = "verif")]
+impl FreeSpaceManager {
+    /// Free runs (start, size) as indexed by address.
+    pub fn verif_runs(&self) -> Vec<(u64, u64)> {
+        self.by_start
+            .iter()
+            .map(|(start, space)| {
+                debug_assert_eq!(*start, space.start);
+                (space.start, space.size)
+            })
+            .collect()
+    }
+
+    /// Free runs (start, size) as indexed by size, re-sorted by address.
+    pub fn verif_runs_by_size(&self) -> Vec<(u64, u64)> {
+        let mut runs: Vec<_> = self
+            .by_size
+            .iter()
+            .map(|((size, start), space)| {
+                debug_assert_eq!((*size, *start), (space.size, space.start));
+                (space.start, space.size)
+            })
+            .collect();
+        runs.sort_unstable();
+        runs
+    }
+}
+
 impl Default for FreeSpaceManager {
     fn default() -> Self {
         Self::new()
